@@ -235,6 +235,7 @@ func init() {
 		"{<<1, 2>>, <<2, 1>>, <<>>}", "({1, 2} :> {3, 4})", `{"b", "a", "c"}`,
 		// members whose printed forms order differently from their values (digit count, sign)
 		"{2, 10}", "{9, 10, 11}", "{(-1), (-2)}", "{(-2), 3, 10}", "{{2}, {10}}", "{{1, 10}, {2}}", "<<10, 2>>", "{<<2>>, <<10>>}",
+		"{(1 :> 5 @@ 3 :> 0), (1 :> 4 @@ 4 :> 0)}", "{(0 :> 9 @@ 3 :> 0), (0 :> 1 @@ 5 :> 0), (3 :> 0)}",
 		"{<<10, 1>>, <<2, 3>>, <<9>>}", "(10 :> 0 @@ 2 :> 1)", "[a |-> {10, 2}]", "{{(-1)}, {(-2)}, {}}", "{TRUE, FALSE}"}
 	add(&opDef{Name: "ToString", Tmpl: "ToString(%s)", Sigs: [][]string{{"ANY"}, {"TOSTR_NESTED"}}, Need: []string{"any"}, ToStr: true,
 		Go: func(a []tla.Value) tla.Value { return tla.ModuleToString(a[0]) }})
@@ -472,6 +473,72 @@ func init() {
 	dom["ASSERT_MSG"] = []string{`"m"`, `<<"x must be positive", 1>>`, "1", "{}", "[a |-> 1]", "TRUE"}
 	add(&opDef{Name: "Assert(c, m)", Key: "Assert", Tmpl: "Assert(%s, %s)", Sigs: [][]string{{"BOOL", "ASSERT_MSG"}}, Need: []string{"bool", "any"},
 		Go: func(a []tla.Value) tla.Value { return tla.ModuleAssert(a[0], a[1]) }})
+	// several bounds of ONE quantifier (the compiler passes them to one call): TLC varies the FIRST bound fastest, and
+	// with a predicate that raises on some combinations the order decides between an error and an answer
+	dom["BSET"] = []string{"{0, 1}", "{1}", "{0}", "{1, 2}", "{0, 1, 2}", "{0, 2}"}
+	raiseOn := func(r, other int) func(x []tla.Value) bool { // (10 \div (1 - x_r)) = 10 /\ x_other = 1, /\ as Go &&
+		return func(x []tla.Value) bool {
+			return tla.ModuleEqualsSymbol(tla.ModuleDivSymbol(ten, tla.ModuleMinusSymbol(one, x[r])), ten).AsBool() &&
+				tla.ModuleEqualsSymbol(x[other], one).AsBool()
+		}
+	}
+	for _, m := range []struct {
+		tla string
+		f   func(x []tla.Value) bool
+	}{
+		{`(10 \div (1 - y)) = 10 /\ x = 1`, raiseOn(1, 0)},
+		{`(10 \div (1 - x)) = 10 /\ y = 1`, raiseOn(0, 1)},
+	} {
+		m := m
+		add(&opDef{Name: `\E x \in S, y \in T : ` + m.tla, Key: `\E`, Tmpl: `\E x \in %s, y \in %s : ` + m.tla, Sigs: [][]string{{"BSET", "BSET"}}, Need: []string{"set", "set"},
+			Go: func(a []tla.Value) tla.Value { return tla.QuantifiedExistential([]tla.Value{a[0], a[1]}, m.f) }})
+		add(&opDef{Name: `\A x \in S, y \in T : ` + m.tla, Key: `\A`, Tmpl: `\A x \in %s, y \in %s : ` + m.tla, Sigs: [][]string{{"BSET", "BSET"}}, Need: []string{"set", "set"},
+			Go: func(a []tla.Value) tla.Value { return tla.QuantifiedUniversal([]tla.Value{a[0], a[1]}, m.f) }})
+	}
+	// sets of functions whose DOMAINS differ: TLC orders functions by size, then the whole domain, then the values
+	dom["QSET_FNDOM"] = []string{"{(1 :> 5 @@ 3 :> 0), (1 :> 4 @@ 4 :> 0)}", "{(0 :> 1), (1 :> 0)}", "{(2 :> 0 @@ 3 :> 0), (1 :> 9 @@ 4 :> 9), (1 :> 0 @@ 2 :> 9)}",
+		"{(0 :> 9 @@ 3 :> 0), (0 :> 1 @@ 5 :> 0), (3 :> 0)}", "{(3 :> 0 @@ 4 :> 1), (3 :> 1 @@ 5 :> 0)}"}
+	three := tla.MakeNumber(3)
+	for _, l := range []lam{tt,
+		{"x[3] = 0", func(x []tla.Value) tla.Value { return tla.ModuleEqualsSymbol(x[0].ApplyFunction(three), zero) }},
+		{"x[3] # 0", func(x []tla.Value) tla.Value { return tla.ModuleNotEqualsSymbol(x[0].ApplyFunction(three), zero) }},
+	} {
+		nested(l, "QSET_FNDOM", "FD")
+	}
+	dom["QSET_RECDOM"] = []string{"{[a |-> 5, c |-> 0], [a |-> 4, d |-> 0]}", "{[b |-> 0], [a |-> 1]}"}
+	nested(tt, "QSET_RECDOM", "RD")
+	// cost: a wide nested set (n sets of n sets of n three-element sets).  Visiting it in the order of values must not
+	// re-sort the nested sets on every comparison; the watchdog of the child process declares a hang on CPU burnt
+	wide := func(n int32) tla.Value {
+		var top []tla.Value
+		for a := int32(1); a <= n; a++ {
+			var mid []tla.Value
+			for b := int32(1); b <= n; b++ {
+				var low []tla.Value
+				for c := int32(1); c <= n; c++ {
+					v := a*10000 + b*100 + c*3
+					low = append(low, tla.MakeSet(tla.MakeNumber(v+2), tla.MakeNumber(v), tla.MakeNumber(v+1)))
+				}
+				mid = append(mid, tla.MakeSet(low...))
+			}
+			top = append(top, tla.MakeSet(mid...))
+		}
+		return tla.MakeSet(top...)
+	}
+	dom["WIDE_N"] = []string{"2", "30"}
+	wideTLA := `{{{{a * 10000 + b * 100 + c * 3, a * 10000 + b * 100 + c * 3 + 1, a * 10000 + b * 100 + c * 3 + 2} : c \in 1..%[1]s} : b \in 1..%[1]s} : a \in 1..%[1]s}`
+	add(&opDef{Name: `\A over wide nested set`, Key: `\A`, Tmpl: `\A x \in ` + wideTLA + ` : TRUE`, Sigs: [][]string{{"WIDE_N"}}, Need: []string{"int"},
+		Go: func(a []tla.Value) tla.Value {
+			return tla.QuantifiedUniversal([]tla.Value{wide(a[0].AsNumber())}, func([]tla.Value) bool { return true })
+		}})
+	add(&opDef{Name: `\E over wide nested set`, Key: `\E`, Tmpl: `\E x \in ` + wideTLA + ` : FALSE`, Sigs: [][]string{{"WIDE_N"}}, Need: []string{"int"},
+		Go: func(a []tla.Value) tla.Value {
+			return tla.QuantifiedExistential([]tla.Value{wide(a[0].AsNumber())}, func([]tla.Value) bool { return false })
+		}})
+	add(&opDef{Name: `CHOOSE over wide nested set`, Key: `CHOOSE`, Tmpl: `Cardinality(CHOOSE x \in ` + wideTLA + ` : TRUE)`, Sigs: [][]string{{"WIDE_N"}}, Need: []string{"int"},
+		Go: func(a []tla.Value) tla.Value {
+			return tla.ModuleCardinality(tla.Choose(wide(a[0].AsNumber()), func(tla.Value) bool { return true }))
+		}})
 	le := func(x []tla.Value) bool { return tla.ModuleLessThanOrEqualSymbol(x[0], x[1]).AsBool() }
 	add(&opDef{Name: `\A x \in S, y \in T : x <= y`, Key: `\A`, Tmpl: `\A x \in %s, y \in %s : x <= y`, Sigs: [][]string{{"SET_INT", "SET_INT"}}, Need: []string{"set", "set"},
 		Go: func(a []tla.Value) tla.Value { return tla.QuantifiedUniversal([]tla.Value{a[0], a[1]}, le) }})
